@@ -3,7 +3,7 @@
 From Coq Require Import ZArith Bool Reals Psatz List.
 From Flocq Require Import Core IEEE754.BinarySingleNaN IEEE754.Binary IEEE754.Bits.
 From GV Require Import Model.Num Spec.ExactArith Proofs.C09.IntArith Proofs.C09.Promote
-  Proofs.C09.IntOps Proofs.C09.FloatOps Proofs.C09.Fmod.
+  Proofs.C09.IntOps Proofs.C09.FloatOps Proofs.C09.Fmod Proofs.C09.FmodTrunc.
 Local Open Scope Z_scope.
 
 (* integers: every binary operation of GarnishNumber on two i32 values returns
@@ -88,6 +88,15 @@ Theorem C09_remainder_spec_unique : forall x y r1 r2,
   fmod_spec x y r1 -> fmod_spec x y r2 -> r1 = r2.
 Proof. exact fmod_spec_unique. Qed.
 Print Assumptions C09_remainder_spec_unique.
+
+(* ... in closed form: the result is  l - trunc(l / r) * r  (Flocq's Ztrunc), computed without
+   rounding *)
+Theorem C09_float_remainder_is_trunc : forall powf l r,
+  num_ok l -> num_ok r -> has_float l r -> num_real r <> 0%R ->
+  exists f, num_binop powf OpRem l r = Some (Flt f) /\ is_finite 53 1024 f = true /\
+            B2R 53 1024 f = (num_real l - IZR (Ztrunc (num_real l / num_real r)) * num_real r)%R.
+Proof. exact float_rem_is_trunc. Qed.
+Print Assumptions C09_float_remainder_is_trunc.
 
 (* non-vacuity: 5.5 % 2 = 1.5, -5.5 % 2 = -1.5, 7 % 0.5 = 0, and the hypotheses hold there *)
 Example C09_ex_remainder : forall powf,
